@@ -69,6 +69,7 @@ func checkC08(r *Run) propMeta {
 		}
 	}
 	checkStackPrimitives(r)
+	checkOptionalDerefGuarded(r)
 	checkChildAccessorsGuarded(r)
 	checkDiscriminatorsNonNil(r)
 	r.Floor("C08-R9-stack-primitive-total", 2)
@@ -539,6 +540,24 @@ func checkConversions(r *Run, vm *VisitorModel) {
 						if calleeOf(info, x) == vm.ctxAddErrs {
 							records = true
 						}
+						// `errs = append(errs, …err…)` with errs a list of errors that the function returns and every
+						// caller hands to AddErrors
+						if id, ok := ast.Unparen(x.Fun).(*ast.Ident); ok && id.Name == "append" && len(x.Args) >= 2 {
+							if _, isBuiltin := info.Uses[id].(*types.Builtin); isBuiltin {
+								mentions := false
+								for _, a := range x.Args[1:] {
+									ast.Inspect(a, func(k ast.Node) bool {
+										if eid, ok := k.(*ast.Ident); ok && info.Uses[eid] == errObj {
+											mentions = true
+										}
+										return true
+									})
+								}
+								if lid, ok := ast.Unparen(x.Args[0]).(*ast.Ident); ok && mentions && errorListDelivered(vm, fd, info.Uses[lid]) {
+									records = true
+								}
+							}
+						}
 					case *ast.ReturnStmt:
 						for _, res := range x.Results {
 							ast.Inspect(res, func(k ast.Node) bool {
@@ -965,33 +984,44 @@ func checkErrorListeners(r *Run, vm *VisitorModel) {
 		r.Undecide("C08-R7: Context.SyntaxError not found")
 		return
 	}
+	// every path through the callback passes a statement that hands AddErrors a value that cannot be a nil error
 	records := false
-	var firstReturn token.Pos
-	ast.Inspect(listener.Body, func(n ast.Node) bool {
-		if ret, ok := n.(*ast.ReturnStmt); ok && firstReturn == token.NoPos {
-			firstReturn = ret.Pos()
-		}
-		return true
-	})
-	for _, st := range listener.Body.List {
-		es, ok := st.(*ast.ExprStmt)
-		if !ok {
-			continue
-		}
-		call, ok := es.X.(*ast.CallExpr)
-		if !ok {
-			continue
-		}
-		if fn := calleeOf(info, call); fn != nil && fn.Name() == "AddErrors" && len(call.Args) >= 1 {
-			if u, ok := ast.Unparen(call.Args[0]).(*ast.UnaryExpr); ok && u.Op == token.AND {
-				if _, isLit := u.X.(*ast.CompositeLit); isLit && (firstReturn == token.NoPos || firstReturn > call.Pos()) {
-					records = true
+	recordsIn := func(n ast.Node) bool {
+		found := false
+		ast.Inspect(n, func(m ast.Node) bool {
+			if _, isLit := m.(*ast.FuncLit); isLit {
+				return false
+			}
+			call, ok := m.(*ast.CallExpr)
+			if !ok {
+				return true
+			}
+			if fn := calleeOf(info, call); fn != nil && fn == vm.ctxAddErrs && len(call.Args) >= 1 && vm.nonNilError(call.Args[0]) {
+				found = true
+			}
+			return !found
+		})
+		return found
+	}
+	if paths, complete := structuredPaths(info, r.Fset, listener.Body.List, 64); complete && len(paths) > 0 {
+		records = true
+		for _, p := range paths {
+			hit := false
+			for _, leaf := range p.Leaves {
+				if _, isExpr := leaf.(ast.Expr); isExpr {
+					continue // a condition: evaluated, but not a statement that records
 				}
+				if recordsIn(leaf) {
+					hit = true
+				}
+			}
+			if !hit {
+				records = false
 			}
 		}
 	}
 	if records {
-		r.Pass(rule, "Context.SyntaxError", listener.Pos(), "the listener callback adds a non-nil error by an unconditional statement")
+		r.Pass(rule, "Context.SyntaxError", listener.Pos(), "every path through the listener callback hands AddErrors a value that cannot be a nil error")
 	} else {
 		r.Fail(rule, "Context.SyntaxError", listener.Pos(), "the ANTLR error listener does not record an error on every call (the AddErrors(&SyntaxError{…}) statement is missing, conditional, or preceded by a return): the lexer reports unrecognised characters with a nil offending symbol and skips them, so such input is accepted with the characters silently removed")
 	}
@@ -1137,4 +1167,125 @@ func conversionHandedOn(r *Run, vm *VisitorModel, info *types.Info, byObj map[ty
 		return "the failing branch in " + callee.Name.Name + " uses the invalid value", true
 	}
 	return "", true
+}
+
+// errorListDelivered: list is a local []error of fd that fd returns, and every caller of fd in the front end hands the
+// corresponding result to Context.AddErrors (or returns it onward, one level).
+func errorListDelivered(vm *VisitorModel, fd *ast.FuncDecl, list types.Object) bool {
+	info := vm.pkg.TypesInfo
+	if list == nil {
+		return false
+	}
+	sl, ok := list.Type().Underlying().(*types.Slice)
+	if !ok || !types.Identical(sl.Elem(), types.Universe.Lookup("error").Type()) {
+		return false
+	}
+	// the index at which fd returns the list
+	idx := -1
+	returnsAll := true
+	ast.Inspect(fd.Body, func(n ast.Node) bool {
+		if _, isLit := n.(*ast.FuncLit); isLit {
+			return false
+		}
+		rs, ok := n.(*ast.ReturnStmt)
+		if !ok {
+			return true
+		}
+		found := false
+		for i, res := range rs.Results {
+			if id, ok := ast.Unparen(res).(*ast.Ident); ok && info.Uses[id] == list {
+				if idx >= 0 && idx != i {
+					returnsAll = false
+				}
+				idx = i
+				found = true
+			}
+		}
+		if !found {
+			returnsAll = false
+		}
+		return true
+	})
+	if idx < 0 || !returnsAll {
+		return false
+	}
+	self, _ := info.Defs[fd.Name].(*types.Func)
+	if self == nil {
+		return false
+	}
+	callers := 0
+	delivered := true
+	for _, f := range vm.pkg.Syntax {
+		for _, d := range f.Decls {
+			caller, ok := d.(*ast.FuncDecl)
+			if !ok || caller.Body == nil {
+				continue
+			}
+			ast.Inspect(caller.Body, func(n ast.Node) bool {
+				as, ok := n.(*ast.AssignStmt)
+				if !ok || len(as.Rhs) != 1 {
+					if call, isCall := n.(*ast.CallExpr); isCall && calleeOf(info, call) == self {
+						// a call outside an assignment of all results
+						if !assignedCall(caller.Body, call) {
+							callers++
+							delivered = false
+						}
+					}
+					return true
+				}
+				call, ok := ast.Unparen(as.Rhs[0]).(*ast.CallExpr)
+				if !ok || calleeOf(info, call) != self {
+					return true
+				}
+				callers++
+				if idx >= len(as.Lhs) {
+					delivered = false
+					return true
+				}
+				lid, ok := ast.Unparen(as.Lhs[idx]).(*ast.Ident)
+				if !ok || lid.Name == "_" {
+					delivered = false
+					return true
+				}
+				obj := info.ObjectOf(lid)
+				handed := false
+				ast.Inspect(caller.Body, func(m ast.Node) bool {
+					switch x := m.(type) {
+					case *ast.CallExpr:
+						if calleeOf(info, x) == vm.ctxAddErrs {
+							for _, a := range x.Args {
+								if aid, ok := ast.Unparen(a).(*ast.Ident); ok && info.Uses[aid] == obj {
+									handed = true
+								}
+							}
+						}
+					case *ast.ReturnStmt:
+						for _, res := range x.Results {
+							if aid, ok := ast.Unparen(res).(*ast.Ident); ok && info.Uses[aid] == obj {
+								handed = true
+							}
+						}
+					}
+					return true
+				})
+				if !handed {
+					delivered = false
+				}
+				return true
+			})
+		}
+	}
+	return callers > 0 && delivered
+}
+
+// assignedCall: call is the sole right-hand side of an assignment in body.
+func assignedCall(body ast.Node, call *ast.CallExpr) bool {
+	found := false
+	ast.Inspect(body, func(n ast.Node) bool {
+		if as, ok := n.(*ast.AssignStmt); ok && len(as.Rhs) == 1 && ast.Unparen(as.Rhs[0]) == ast.Expr(call) {
+			found = true
+		}
+		return !found
+	})
+	return found
 }
